@@ -6,6 +6,7 @@ package crashlib
 import (
 	"bufio"
 	"bytes"
+	"crypto/sha256"
 	"fmt"
 	"sort"
 	"strconv"
@@ -46,6 +47,17 @@ type Workload struct {
 // Value is the unique token a transaction writes to a key: "<txn>.<op>" + padding.
 func Value(txn, opIdx, vlen int) string {
 	return fmt.Sprintf("%d.%d", txn, opIdx) + strings.Repeat("x", vlen)
+}
+
+// Digest stands for a value in reads and in the oracle: values above 512 bytes are
+// replaced by their length and SHA-256 so that multi-megabyte values do not travel
+// through the result files.
+func Digest(v string) string {
+	if len(v) <= 512 {
+		return v
+	}
+	h := sha256.Sum256([]byte(v))
+	return fmt.Sprintf("\x01len=%d sha256=%x head=%q", len(v), h[:12], v[:16])
 }
 
 // Writes of a transaction, last write per key wins (as in Txn.pendingWrites). nil = delete.
@@ -94,7 +106,7 @@ func enc(v *string) string {
 	if v == nil {
 		return Absent
 	}
-	return *v
+	return Digest(*v)
 }
 
 // Expect folds runs (their transactions and the prefix of their ack log that
